@@ -3,7 +3,7 @@
 use crate::ast::{It, Strat, B, G};
 use crate::errs::{ErrTy, SpanObs, Tok};
 use crate::insp::{loc_to_idx, log_ev, Ev, St, BASE};
-use crate::val::{pred, Val};
+use crate::val::{map_fn, pred, Val};
 use chumsky::extra;
 use chumsky::input::{Input, InputRef, ValueInput};
 use chumsky::prelude::*;
@@ -400,7 +400,7 @@ where
         G::Rewind(a) => build(a, env)?.rewind().boxed(),
         G::Map(a, f) => {
             let f = f.clone();
-            build(a, env)?.map(move |v| Val::m(&f, v)).boxed()
+            build(a, env)?.map(move |v| map_fn(&f, v)).boxed()
         }
         G::To(a, c) => build(a, env)?.to(Val::k(c)).boxed(),
         G::Ignored(a) => build(a, env)?.ignored().map(|()| Val::U).boxed(),
@@ -522,7 +522,7 @@ where
         }
         G::MapCtx(f, a) => {
             let f = f.clone();
-            chumsky::primitive::map_ctx::<_, _, I, X<E>, X<E>, _>(move |c: &Val| Val::m(&f, c.clone()), build(a, env)?).boxed()
+            chumsky::primitive::map_ctx::<_, _, I, X<E>, X<E>, _>(move |c: &Val| map_fn(&f, c.clone()), build(a, env)?).boxed()
         }
         G::WithState(a) => build(a, env)?.with_state(St::default()).boxed(),
         G::Nested(..) | G::Tree => return Err("nested inputs are built by the token-tree runner".into()),
